@@ -175,6 +175,17 @@ func useTable(t route.Table, r *hx.Rand) (n int, panicText string) {
 			if k%7 == 0 {
 				req.Header.Set("X-Forwarded-Proto", "https")
 			}
+			// what the redirect / strip / $path code of a matched target gets to see besides the path
+			if k%9 == 0 {
+				req.URL.RawQuery = []string{"a=b", "a=b&c=%zz", "%", "q=http://x/$path", ""}[k%5]
+			}
+			if k%17 == 0 {
+				req.URL.RawPath = []string{"/%2F", "/%zz", p + "%2f"}[k%3]
+			}
+			if k%19 == 0 {
+				req.RequestURI = "*"
+				req.Method = "OPTIONS"
+			}
 			trace := ""
 			if k%11 == 0 {
 				trace = "abcdefghijklmnopqrstuvwxyz"[:k%27]
@@ -267,6 +278,25 @@ func runNopanic(raw json.RawMessage) (interface{}, error) {
 			out["outcome"] = "error"
 			out["what"] = "decode"
 			return out, nil
+		}
+		// what the document decoded to travels to the model of NewTableCustom (as in c02.custom), with the oracles
+		if routes != nil && len(*routes) <= 64 {
+			o := newOracle()
+			ds := []interface{}{}
+			for i := range *routes {
+				d := &(*routes)[i]
+				ds = append(ds, defJSON(d))
+				if d.Dst != "" {
+					o.addURL(d.Dst)
+				}
+				if d.Src != "" {
+					o.addSrc(d.Src)
+				}
+			}
+			out["defs"] = ds
+			out["oracle"] = o.json()
+		} else if routes == nil {
+			out["nullDoc"] = true
 		}
 		func() {
 			defer func() {
